@@ -77,4 +77,8 @@ SyncWalk(inn, td, acc) ==
   ELSE IF td = <<>> THEN acc ELSE SyncWalk(order[td[Len(td)]], SubSeq(td, 1, Len(td)-1), acc)
 SameAsSync == done => out = SyncWalk(order[<<>>], <<>>, <<>>)
 Inv == NoDup /\ ParentsFirst /\ Complete /\ SameAsSync
+\* liveness: a consumer that keeps polling reaches the end of the stream, whatever (boundedly many) polls
+\* the environment answers with Pending - no state of the iterator can be polled forever without progress
+FairSpec == Spec /\ WF_vars(Poll)
+Terminates == <>done
 =============================================================================
